@@ -69,9 +69,9 @@ def targets(maxlen):
 
 def params(tier):
     if tier == 'quick':
-        return {'examples': 900, 'wall': 85, 'case_timeout': 60, 'seqlen': 2, 'tlen': 4}
+        return {'examples': 900, 'wall': 120, 'case_timeout': 60, 'seqlen': 2, 'tlen': 4}
 
-    return {'examples': 4000, 'wall': 600, 'case_timeout': 120, 'seqlen': 3, 'tlen': 5}
+    return {'examples': 10000, 'wall': 600, 'case_timeout': 120, 'seqlen': 3, 'tlen': 5}
 
 
 def floors(tier):
